@@ -1052,3 +1052,28 @@ package profile
 //@     invariant num_only: forall k string :: has(s.NumLabel, k) ==> has(src.NumLabel, k) && visited(k)
 //@     invariant src_same: forall k string :: has(src.NumLabel, k) == atloop(4, has(src.NumLabel, k))
 //@     invariant sep: fresh(s.Value) && forall k string :: has(s.NumLabel, k) && len(s.NumLabel[k]) > 0 ==> !same_array(s.NumLabel[k], s.Value)
+
+// ---- C14/C02: java legacy profiles. The attribute and sample sections are walked line by line: a blank line never
+// ends a section (every return from inside the loops happens on a non-blank line), the line cursor stays inside the
+// buffer for any input, and a sample gets exactly two values ----
+//@ func parseJavaHeader
+//@   uses profile.errs
+//@   requires p != nil
+//@   atreturn nonblank: line != ""
+//@   loop 1
+//@     invariant p != nil && (nextNewLine == -1 || (0 <= nextNewLine && nextNewLine < len(b)))
+//@ func parseJavaSamples arith bv floatabs=yes
+//@   uses profile.errs
+//@   requires p != nil
+//@   atreturn nonblank: line != ""
+//@   loop 1
+//@     invariant p != nil && locs != nil && (nextNewLine == -1 || (0 <= nextNewLine && nextNewLine < len(b)))
+//@     mustcall parseHexAddresses parsed: true when line != ""
+//@   loop 2
+//@     invariant p != nil && locs != nil && (0 <= nextNewLine && nextNewLine < len(b)) && len(sample) == 4
+//@ func parseJavaLocations
+//@   requires wfprofile(p)
+//@   loop 1
+//@     invariant wfprofile(p) && fns != nil
+//@ func Profile.ParseMemoryMapFromScanner
+//@   requires wfprofile(p)
